@@ -205,4 +205,18 @@ CHECKS = {
         note=_NOTE + " ep2_map_swift is validity-only; try-and-increment maps accept either root (sign undocumented). DST handling "
              "(6-byte 'RELIC\\0' vs 5-byte) and the upward Z search are documented parameters, not judged against the RFC suites.",
         technique="TLC model checking of transcribed map programs + TLC trace validation of recorded map calls against a TLA+ evaluation of the documented construction"),
+    "C17": dict(
+        text="lib/Edwards (affine unified law) is model-checked to be an abelian group law on all 74 complete twisted Edwards curves "
+             "over F_5..F_13 (MCEdwards). The ed formula programs as coded (affine/projective/extended with T*Z = X*Y, negation, "
+             "normalisation, comparison, on-curve, projective->extended conversion) are model-checked against it on the same curves "
+             "for all point pairs and Z in {1,2,3} (EdFormulas; F_17 in thorough). Conformance: every exported ed_* group, "
+             "multiplication (variable/fixed base, simultaneous), compression, byte-format and map routine of edwards25519 in "
+             "PROJC/EXTND/BASIC builds, and of three tiny curves (cofactor 8 and 4) installed in an 8-bit-field world (exhaustive "
+             "over all point pairs and a dense scalar range in thorough), validated event by event against the TLA+ definition; "
+             "small-order points (order 2/4/8) are constructed by the generator and their order is verified by the spec; ed_map "
+             "lands in the prime-order subgroup and is deterministic; parameter relations of the set (C18 style).",
+        ref="§4 C17",
+        note=_NOTE + " Tiny worlds are installed through the public ctx fields; the sign-bit convention of compression is a "
+             "parameter (round trip judged); the Elligator value itself is specified under C13.",
+        technique="TLC model checking of the Edwards law and the formula programs + TLC trace validation of recorded ed calls"),
 }
